@@ -12,28 +12,65 @@ MODEL_CFG = "INIT Init\nNEXT Next\nCHECK_DEADLOCK FALSE\nCONSTANTS MaxQ = %d\nIN
 
 
 class RecordingHmac(object):
-    """Stand-in for the `hmac` module inside ecdsa.rfc6979: records (key, message, output) of every HMAC."""
+    """Stand-in for the `hmac` module inside ecdsa.rfc6979: records (key, message, output) of every HMAC value that is actually
+    computed (at digest time), whichever way the code drives the API - new(key, msg), incremental update(), copy() of a keyed
+    object, the HMAC class, or the one-shot digest()."""
 
     def __init__(self):
         self.calls = []
-
-    def new(self, key, msg=None, digestmod=None):
         rec = self
 
         class H(object):
-            def __init__(self):
+            def __init__(self, key, msg=None, digestmod=None):
+                if digestmod is None:
+                    raise TypeError("Missing required parameter 'digestmod'.")
                 self.key = bytes(key)
+                self.digestmod = digestmod
                 self.parts = [bytes(msg)] if msg is not None else []
+                probe = real_hmac.new(self.key, b"", digestmod)
+                self.digest_size, self.block_size, self.name = probe.digest_size, probe.block_size, probe.name
 
             def update(self, data):
                 self.parts.append(bytes(data))
 
+            def copy(self):
+                c = H(self.key, None, self.digestmod)
+                c.parts = list(self.parts)
+                return c
+
             def digest(self):
                 m = b"".join(self.parts)
-                out = real_hmac.new(self.key, m, digestmod).digest()
+                out = real_hmac.new(self.key, m, self.digestmod).digest()
                 rec.calls.append({"key": b2l(self.key), "msg": b2l(m), "out": b2l(out)})
                 return out
-        return H()
+
+            def hexdigest(self):
+                return self.digest().hex()
+
+        self.HMAC = H
+
+    def new(self, key, msg=None, digestmod=None):
+        return self.HMAC(key, msg, digestmod)
+
+    def digest(self, key, msg, digest):
+        return self.HMAC(key, msg, digest).digest()
+
+    def __getattr__(self, name):          # compare_digest, trans_5C, ...
+        return getattr(real_hmac, name)
+
+
+def install_hmac(mod, rec):
+    """Point the module's `hmac` (and any name it imported from hmac) at the recorder; returns the undo list."""
+    undo = []
+    originals = {id(real_hmac.new): rec.new, id(real_hmac.HMAC): rec.HMAC, id(getattr(real_hmac, "digest", None)): rec.digest}
+    for k, v in list(vars(mod).items()):
+        if v is real_hmac:
+            undo.append((k, v))
+            setattr(mod, k, rec)
+        elif id(v) in originals and v is not None:
+            undo.append((k, v))
+            setattr(mod, k, originals[id(v)])
+    return undo
 
 
 def gen_events(args):
@@ -41,12 +78,14 @@ def gen_events(args):
     ecdsa = core.import_ecdsa()
     from ecdsa import rfc6979
     events = []
-    saved = rfc6979.hmac
+    undo = []
     try:
         for (order, x, hname, data, retry, extra) in cases:
             hf = hash_by_name(hname)
             rec = RecordingHmac()
-            rfc6979.hmac = rec
+            for k_, v_ in undo:
+                setattr(rfc6979, k_, v_)
+            undo = install_hmac(rfc6979, rec)
             try:
                 k = rfc6979.generate_k(order, x, hf, data, retry_gen=retry, extra_entropy=extra)
                 ok = True
@@ -55,7 +94,8 @@ def gen_events(args):
             events.append({"order": n2l(order), "x": n2l(x), "h1": b2l(data), "holen": hf().digest_size, "extra": b2l(extra),
                            "retry": retry, "calls": rec.calls, "k": n2l(k), "ok": ok, "hash": hname})
     finally:
-        rfc6979.hmac = saved
+        for k_, v_ in undo:
+            setattr(rfc6979, k_, v_)
     return events
 
 
@@ -115,6 +155,15 @@ def run(ctx):
     with cf.ProcessPoolExecutor(max_workers=core.NCPU) as ex:
         for evs in ex.map(gen_events, jobs):
             events.extend(evs)
+    # DRIFT guard: a generate_k that succeeds without a single HMAC computation visible to the recorder does its HMAC some other
+    # way (own construction over hashlib, a C extension): such calls cannot be decided by replaying recorded HMAC values and are
+    # reported as a note, never as an alarm
+    blind = [e for e in events if e["ok"] and not e["calls"]]
+    if blind:
+        ctx.note("DRIFT (not an alarm): %d of %d generate_k calls made no HMAC computation through the hmac module; they are not "
+                 "decided by this check" % (len(blind), len(events)))
+        ctx.extra["generate_k_calls_not_observable"] = len(blind)
+        events = [e for e in events if not (e["ok"] and not e["calls"])]
     ctx.evaluations += len(events)
     nrej = sum(1 for e in events if len(e["calls"]) > 4 + max(1, -(-((len(e["order"]) * 8) // 8) // e["holen"])) + 2 * e["retry"])
     ctx.extra["generate_k_calls"] = len(events)
